@@ -6,6 +6,7 @@ import (
 	"fmt"
 	"math/big"
 	"sort"
+	"strings"
 
 	vmcommon "github.com/ElrondNetwork/elrond-vm-common"
 	"github.com/ElrondNetwork/elrond-vm-common/parsers"
@@ -57,6 +58,8 @@ type Config struct {
 	NameChange      bool   `json:"name_change"`
 	FIFO            bool   `json:"fifo"`
 	SchedSeed       int64  `json:"sched_seed"`
+	// NumDNS: number of configured DNS addresses; -1 = none (an empty, non-nil map), 0 = legacy (one or two, drawn from CfgSeed)
+	NumDNS int `json:"num_dns,omitempty"`
 }
 
 // Event is one step of a run; a replay file is a Config plus a list of Events.
@@ -319,6 +322,7 @@ func (w *World) Run(m *Msg, fault []int) (*Exec, *spec.Verdict) {
 		w.violate(v)
 	}
 	w.wireChecks(ex, vd)
+	w.storageRoundTrip(ex)
 	w.emit(nd, ex, vd)
 	return ex, vd
 }
@@ -366,6 +370,78 @@ func (w *World) checkActivation(nd *Node, fn string, active bool) {
 	}
 	if want != active {
 		w.violate(spec.Violation{Props: spec.P("C18"), Clause: "activation", Detail: fmt.Sprintf("shard %d: %s reports active=%v with last confirmed epoch %d and activation epoch %d", nd.ID, fn, active, nd.Clock.Current, nd.Cfg.ActivationEpoch)})
+	}
+}
+
+// CheckBuilt: a transaction string produced by the repository's tx-data builder must be the
+// documented encoding of (function, arguments) and must parse back to them (C12).
+func (w *World) CheckBuilt(fn string, args [][]byte, data string) {
+	w.Stats.ParserChecks++
+	if want := spec.EncodeData(fn, args); want != data {
+		w.violate(spec.Violation{Props: spec.P("C12"), Clause: "builder", Detail: fmt.Sprintf("the tx-data builder encoded %s%x as %q, the documented encoding is %q", fn, args, data, want)})
+		return
+	}
+	if strings.Contains(fn, "@") || fn == "" {
+		return
+	}
+	pf, pa, err := realCallParser.ParseData(data)
+	if err != nil || pf != fn || !eqArgs(pa, args) {
+		w.violate(spec.Violation{Props: spec.P("C12"), Clause: "build-parse", Detail: fmt.Sprintf("%q was built from %s%x and parses to %s%x (err=%v)", data, fn, args, pf, pa, err)})
+	}
+}
+
+// storageRoundTrip: the storage diff of a successful call, encoded as a storage-update list,
+// must survive CreateDataFromStorageUpdate / GetStorageUpdates (C12).
+func (w *World) storageRoundTrip(ex *Exec) {
+	var ups []*vmcommon.StorageUpdate
+	for _, a := range ex.Post.SortedAddrs() {
+		post := ex.Post[a]
+		pre := ex.Pre.Get(a)
+		keys := map[string]bool{}
+		for k := range pre.Storage {
+			keys[k] = true
+		}
+		for k := range post.Storage {
+			keys[k] = true
+		}
+		kl := make([]string, 0, len(keys))
+		for k := range keys {
+			kl = append(kl, k)
+		}
+		sort.Strings(kl)
+		for _, k := range kl {
+			if !bytes.Equal(pre.Storage[k], post.Storage[k]) && len(k) > 0 {
+				ups = append(ups, &vmcommon.StorageUpdate{Offset: []byte(k), Data: post.Storage[k]})
+			}
+		}
+	}
+	if len(ups) == 0 {
+		return
+	}
+	w.Stats.ParserChecks++
+	var data string
+	var back []*vmcommon.StorageUpdate
+	var err error
+	var pan string
+	func() {
+		defer func() {
+			if r := recover(); r != nil {
+				pan = fmt.Sprint(r)
+			}
+		}()
+		data = storageParser.CreateDataFromStorageUpdate(ups)
+		back, err = storageParser.GetStorageUpdates(data)
+	}()
+	if pan != "" {
+		w.violate(spec.Violation{Props: spec.P("C12"), Clause: "parser-totality", Detail: fmt.Sprintf("storage-updates parser panicked on %d updates: %s", len(ups), pan)})
+		return
+	}
+	ok := err == nil && len(back) == len(ups)
+	for i := 0; ok && i < len(ups); i++ {
+		ok = bytes.Equal(back[i].Offset, ups[i].Offset) && bytes.Equal(back[i].Data, ups[i].Data)
+	}
+	if !ok {
+		w.violate(spec.Violation{Props: spec.P("C12"), Clause: "storage-roundtrip", Detail: fmt.Sprintf("a list of %d storage updates encoded as %q parses back to %d updates (err=%v)", len(ups), data, len(back), err)})
 	}
 }
 
